@@ -174,6 +174,10 @@ _EQU_VALUES = [0, 1, 5, 15, 16, 100, 127, 128, 200, 255, 256, 300, 0x1234, 0x7FF
                -100, -128]
 
 
+# constants written with a label,PCR target: mostly small, some that alone push the displacement over a width limit
+_PCR_CONSTANTS = [0, 1, 2, 3, 4, 5, 0, 1, 2, 3, 4, 5, 100, 126, 127, 128, 129, 130, 200, 300, 1000]
+
+
 def build_program(protos, org_raw, with_org, labels_raw):
     """protos: list of tuples of 8 small integers; everything else is derived deterministically"""
     stmts = []
@@ -285,7 +289,7 @@ def build_program(protos, org_raw, with_org, labels_raw):
             else:
                 s["mn"] = IDX[p[1] % len(IDX)]
                 s["ind"] = p[3] % 3 == 0
-                c = p[6] % 6
+                c = _PCR_CONSTANTS[p[6] % len(_PCR_CONSTANTS)]
                 s["val"] = {"sym": label_names[p[5] % len(label_names)], "op": ["", "+", "-"][p[7] % 3] if c else "", "c": c}
         elif k == "pcrlit":
             s["mn"] = IDX[p[1] % len(IDX)]
